@@ -296,6 +296,11 @@ def run(p, report, tier):
                 "rand_argmax masks with equality to the NaN-aware optimum (shared with C18 R18.1)", floor=4)
     from . import c18
     c18.check_argmax_primitives(p, report, "R2.5")
+    report.rule("R2.6", "every row has a selectable winner only if the batch size never exceeds the number of "
+                "candidates: the base-class clip exists, its bound counts candidate rows, and the de-duplicated "
+                "result of check_indices is the array that is used (shared with C01 R1.1)", floor=4)
+    c01.check_clip(p, c01.Report_proxy(report, {"R1.1": "R2.6"}))
+    c01.check_indices_results(p, report, "R2.6")
     report.assumptions += [
         "statement order inside a loop body is judged by structural dominance (no goto)",
         "the numerical arg-max relation itself is the contract of rand_argmax (decided structurally by R2.5 / C18)",
